@@ -146,6 +146,12 @@ func genFramePlan(seed uint64, thorough bool) *Plan {
 				if isBlockingCmd(a[0]) {
 					a = []string{"LLEN", g.key()}
 				}
+				if strings.EqualFold(a[0], "LCS") {
+					// the emulator's LCS is quadratic with deep recursion: on the
+					// > 64 KiB values of this workload one call takes minutes of
+					// real time (a performance matter, not a framing one)
+					a = []string{"STRLEN", g.key()}
+				}
 			}
 			if setsExpiry(a) {
 				// the fragmented twin takes more simulated time (clock jumps between
